@@ -1,0 +1,39 @@
+//go:build verif
+
+// Contracts for the fvc verification-condition generator in /verif (comment-only file).
+//
+// The Skip* options of the limiter (property C13): which requests are un-counted, and from which window.
+
+package limiter
+
+//@ props C13
+
+// ---- the status a request is answered with ---------------------------------------------------------------------
+// What the client will see for a request whose handler chain returned err, as far as a middleware can know it
+// when c.Next() returns: a handler that returns an error has not written a status yet - the application's error
+// handler does that after the middleware has returned; the default error handler (DefaultErrorHandler, root
+// package: clauses framework-error-status / other-error-500) answers with the Code of the first *fiber.Error in
+// the chain of err, and with 500 for any other error. Without an error it is the status the handler left in the
+// response object. isFiberErr/fiberErrCode: what errors.As(err, &e) with e *fiber.Error finds (mw_C08.spec);
+// rStatus: the status of a fasthttp response object (mw_C17.spec); ctxResp: the response object of a context.
+//@ macro answeredWith(c, err, ep) = ite(err != nil, ite(isFiberErr(err), fiberErrCode(err, ep), fiber.StatusInternalServerError), rStatus(ctxResp(c), ep))
+
+// the class of requests the configuration un-counts: successful ones (answered below 400) and/or failed ones
+//@ macro skipClass(cf, status) = (cf.SkipSuccessfulRequests && status < fiber.StatusBadRequest) || (cf.SkipFailedRequests && status >= fiber.StatusBadRequest)
+
+//@ func effectiveStatus
+//@   modifies heap(C_p_fiber_Error)
+//@   ensures error-counts-as-its-status-code: err != nil ==> result == ite(isFiberErr(err), fiberErrCode(err, epoch), fiber.StatusInternalServerError)
+//@   ensures no-error-response-status: err == nil ==> result == rStatus(ctxResp(c), epoch)
+//@   ensures status-the-request-is-answered-with: result == answeredWith(c, err, epoch)
+
+// The names the assumed contract of errors.As (mw_C08.spec) uses for the type *fiber.Error, as spelled in this package:
+//@ macro isFiberErrTarget(t) = typeis(t, **fiber.Error)
+//@ macro fiberErrTarget(t) = *unbox(t, **fiber.Error)
+//@ macro isFiberErrValue(e) = typeis(e, *fiber.Error)
+//@ macro fiberErrValue(e) = unbox(e, *fiber.Error)
+// (the limiter never passes another target type to errors.As; those types do not resolve in this package)
+//@ macro isSmallBufTarget(t) = false
+//@ macro isOpErrTarget(t) = false
+//@ macro opErrTarget(t) = nil
+//@ macro isNetErrTarget(t) = false
